@@ -421,16 +421,18 @@ func (its *jsonPrimitive) createJSONObject(parent jsonType, value interface{}, t
 	fields := reflect.TypeOf(value)
 
 	if target.Kind() == reflect.Map {
-		mapValue := value.(map[string]interface{})
+		// any map type is accepted (map[string]string, map[string]int, ...), not only map[string]interface{}.
 		// children take their timestamps from ts in visiting order: it must be the same on every replica
-		keys := make([]string, 0, len(mapValue))
-		for k := range mapValue {
-			keys = append(keys, k)
+		byKey := make(map[string]reflect.Value, target.Len())
+		keys := make([]string, 0, target.Len())
+		for _, k := range target.MapKeys() {
+			name := fmt.Sprint(k.Interface())
+			byKey[name] = target.MapIndex(k)
+			keys = append(keys, name)
 		}
 		sort.Strings(keys)
 		for _, k := range keys {
-			val := reflect.ValueOf(mapValue[k])
-			its.addValueToJSONObject(jo, k, val, ts)
+			its.addValueToJSONObject(jo, k, byKey[k], ts)
 		}
 	} else { // reflect.Struct
 		for i := 0; i < target.NumField(); i++ {
